@@ -325,6 +325,54 @@ def _reversed_whole(bf, local):
     return out
 
 
+def _per_octet_format(c, bf, clos):
+    """Display written as `for b in bytes { write!(f, "{:02x}", b) }` (loop, for_each or try_for_each; closure or inline):
+    {n_formats, literals, width, zero, bad_flags, whole, n_rev} or None when the body has no hex placeholder of a byte"""
+    bodies = [bf] + [c.bf(p) for p in clos]
+    fmts = []
+    for b in bodies:
+        for bb, t in b.calls():
+            if callee_name(t).endswith('fmt::Arguments::new'):
+                tmpl = _const_bytes(term_of_operand(b, t.args[0]))
+                arr = find_in_term(term_of_operand(b, t.args[1]), lambda y: isinstance(y, tuple) and y[:1] == ('array',))
+                if tmpl is None or arr is None:
+                    continue
+                hexes = [a for a in arr[1] if isinstance(a, tuple) and a[0] == 'call' and re.search(r'new_(lower|upper)_hex$', a[1])]
+                if hexes:
+                    fmts.append((b, tmpl, arr))
+    if not fmts:
+        return None
+    out = {'n_formats': len(fmts), 'literals': [], 'width': None, 'zero': False, 'bad_flags': False, 'whole': False, 'n_rev': 0}
+    b, tmpl, arr = fmts[0]
+    parts = decode_template(tmpl)
+    out['literals'] = [p[1] for p in parts if p[0] == 'lit' and p[1]]
+    ph = [p[1] for p in parts if p[0] == 'arg']
+    if len(ph) == 1:
+        o = ph[0]
+        fl = o['flags'] or 0
+        out['zero'] = bool(fl & ZERO_PAD) or (fl & 0x1FFFFF) == 0x30
+        out['bad_flags'] = bool(fl & BAD_FLAGS)
+        if o['width'] is not None:
+            if o['width_indirect']:
+                wa = arr[1][o['width']] if o['width'] < len(arr[1]) else None
+                out['width'] = _int_of_term(c, b, wa[2][0]) if isinstance(wa, tuple) and wa[0] == 'call' and wa[1].endswith('from_usize') else None
+            else:
+                out['width'] = o['width']
+        else:
+            out['width'] = 0
+    else:
+        out['n_formats'] = len(ph) if len(ph) != 1 else out['n_formats']
+    # the iteration: some chain in the Display body starts from self.as_ref() (whole) and is reversed at most once
+    for bb, t in bf.calls():
+        for a in t.args:
+            tm = term_of_operand(bf, a)
+            if _calls_in(tm, 'AsRef::as_ref') and term_contains(tm, lambda y: y == ('param', 1)):
+                if not any(_calls_in(tm, s_) for s_ in ('index', 'get', 'split_at', 'skip', 'take', 'step_by')):
+                    out['whole'] = True
+                out['n_rev'] = max(out['n_rev'], len(_calls_in(tm, 'Iterator::rev')))
+    return out
+
+
 def check_bytes(c, res, ty, d, n, not_judged, expect_reversed):
     short = ty.split('::')[-1]
     key = ty.split('::')[-2] + '::' + short
@@ -442,9 +490,25 @@ def check_bytes(c, res, ty, d, n, not_judged, expect_reversed):
             if nrev > 1 or rev_inside != nrev:
                 why.append('the order of rev() and enumerate() makes the index count from the wrong end')
             rev_d = nrev == 1
+    elif not enc and not enc_c and _per_octet_format(c, bf, clos) is not None:
+        # one octet at a time through the formatter: write!(f, "{:02x}", b) for every byte of the (optionally reversed) iteration
+        o = _per_octet_format(c, bf, clos)
+        if o['n_formats'] != 1:
+            why.append('%d hex placeholders' % o['n_formats'])
+        if o['literals']:
+            why.append('literal text %s between the octets' % o['literals'])
+        if o['width'] != 2 or not o['zero']:
+            why.append('each octet is printed with width %s%s: an octet below 0x10 does not give two hex digits' % (o['width'], '' if o['zero'] else ' and blank padding'))
+        if o['bad_flags']:
+            why.append('a sign or `#` prefix is not part of the hex text form')
+        if not o['whole']:
+            why.append('the octets printed are not the bytes of self.as_ref()')
+        rev_d = o['n_rev'] == 1
+        if o['n_rev'] > 1:
+            why.append('%d reversals of the iteration' % o['n_rev'])
     else:
         judged = False
-        not_judged.append('%s: Display is neither one whole hex::encode_to_slice nor one per-byte closure' % key)
+        not_judged.append('%s: Display is neither one whole hex::encode_to_slice, one per-byte closure nor a per-octet format' % key)
     if judged:
         cnt = [_int_of_term(c, bf, term_of_operand(bf, t.args[1])) for bb, t in takes]
         if takes and cnt != [2 * n]:
